@@ -201,6 +201,30 @@ Fixpoint read_files (ins : list (option str * list ev)) (ss : list sstate) (idx 
   end.
 End Run.
 
+
+(* ---------- the contexts the read loop hands to the pipeline ---------- *)
+(* the same loop as read_input, without the pipeline: every parsed value becomes a context (with its
+   input-context record); recoverable errors are counted; a read error stops the loop (third component) *)
+Fixpoint read_ctxs (fuel : nat) (only_objs : bool) (r : reader) (fname : option str) (idx infile : N)
+  : list ctx * N * bool :=
+  match fuel with O => ([], 0, true) | S f =>
+    let started := where_am_i r in
+    let '(res, r) := next_json_value r in
+    if io r then ([], 0, true) else
+    match res with
+    | POk v =>
+        if only_objs && negb (is_container v) then read_ctxs f only_objs r fname idx infile else
+        let c := new_with_input v {| ic_start := started; ic_end := where_am_i r; ic_file := fname;
+                                     ic_file_index := infile; ic_index := idx |} in
+        let '(cs, e, b) := read_ctxs f only_objs r fname (idx + 1) (infile + 1) in (c :: cs, e, b)
+    | PEof => ([], 0, false)
+    | PFuel => ([], 0, true)
+    | PErr => let '(cs, e, b) := read_ctxs f only_objs r fname idx infile in (cs, e + 1, b)
+    end
+  end.
+Definition ctxs_of_input (cf : cfg) (fname : option str) (evs : list ev) : list ctx * N * bool :=
+  read_ctxs (input_fuel evs) (c_only_objs cf) (mk_reader evs) fname 0 0.
+
 Record gout := { g_events : list oev; g_result : gres; g_pulled : list N; g_stdin_opened : bool }.
 
 (* inputs: named files, or a single unnamed stdin stream *)
